@@ -433,7 +433,7 @@ func c02(x *Ctx) {
 // loopBody returns the successor of a loop header that stays inside the loop.
 func loopBody(h *ssa.BasicBlock) *ssa.BasicBlock {
 	for _, s := range h.Succs {
-		if eng.BlockReaches(s, h) && s != h {
+		if s != h && inNaturalLoop(s, h) {
 			return s
 		}
 	}
